@@ -129,7 +129,8 @@ impl StreamId {
         let mut result = 0u64;
         for &b in bytes {
             if b < b'0' || b > b'9' { return None; }
-            result = result.wrapping_mul(10).wrapping_add((b - b'0') as u64);
+            // a number that does not fit in 64 bits is not an ID (it used to wrap around silently)
+            result = result.checked_mul(10)?.checked_add((b - b'0') as u64)?;
         }
         Some(result)
     }
